@@ -525,3 +525,34 @@ fn probe_d() {
     }
     assert!(it.next().is_none());
 }
+
+#[kani::proof]
+#[kani::unwind(8)]
+#[kani::stub(alloc::fmt::format, format_stub)]
+fn probe_e() {
+    let v: [[i64; 2]; 3] = kani::any();
+    let start = (3, 2);
+    let range = Range { start, end: (start.0 + 2, start.1 + 1), inner: ints3x2(&v) };
+    let b = no_headers();
+    let Ok(mut it) = b.from_range::<Data, Row3<Got>>(&range) else {
+        assert!(false);
+        return;
+    };
+    let mut n = 0;
+    while n < 3 {
+        match it.next() {
+            Some(Ok(r)) => assert!(r.n == 2 && r.e[0] == Some(Got::I64(v[n][0])) && r.e[1] == Some(Got::I64(v[n][1]))),
+            _ => assert!(false),
+        }
+        n += 1;
+    }
+    assert!(it.next().is_none());
+}
+#[kani::proof]
+fn probe_w() {
+    let start = any_origin();
+    let range: Range<Data> = Range { start, end: (start.0 + 2, start.1 + 1), inner: Vec::new() };
+    let w = (range.end.1 - range.start.1 + 1) as usize;
+    let v: Vec<usize> = (0..w).collect();
+    assert!(v.len() == 2);
+}
